@@ -78,6 +78,8 @@ pub enum Delivery {
     Dribble,
     /// connection dropped after half of the body
     DisconnectMidBody,
+    /// the complete request is sent, then the client goes away before the answer (impatient client)
+    HangUpAfterRequest(u64),
     /// `Transfer-Encoding: chunked` instead of `Content-Length`
     Chunked,
 }
@@ -148,6 +150,15 @@ fn http(port: u16, method: &str, path: &str, content_type: Option<&str>, body: &
             if let Err(e) = stream.write_all(b"0\r\n\r\n") {
                 return Outcome::Closed(format!("write body: {}", e));
             }
+        }
+        Delivery::HangUpAfterRequest(ms) => {
+            if let Err(e) = stream.write_all(body) {
+                return Outcome::Closed(format!("write body: {}", e));
+            }
+            let _ = stream.flush();
+            std::thread::sleep(Duration::from_millis(ms));
+            let _ = stream.shutdown(std::net::Shutdown::Both);
+            return Outcome::Closed("client hung up after the complete request".to_string());
         }
         Delivery::DisconnectMidBody => {
             let _ = stream.write_all(&body[..body.len() / 2]);
@@ -421,6 +432,8 @@ pub enum Kind {
     EmptyBody,
     Garbage5Mb,
     DisconnectMidBody(usize),
+    /// a complete valid request whose client hangs up after the given number of ms, before the answer
+    HangUpAfterRequest(usize, u64),
     MissingField(usize),
     DanglingReference(usize),
     BadTimestamp(usize),
@@ -448,6 +461,7 @@ impl Kind {
             Kind::EmptyBody => "fault.empty_body",
             Kind::Garbage5Mb => "fault.garbage_5mb",
             Kind::DisconnectMidBody(_) => "fault.disconnect_mid_body",
+            Kind::HangUpAfterRequest(_, _) => "fault.hang_up_after_request",
             Kind::MissingField(_) => "fault.invalid.missing_field",
             Kind::DanglingReference(_) => "fault.invalid.dangling_reference",
             Kind::BadTimestamp(_) => "fault.invalid.bad_timestamp",
@@ -592,6 +606,7 @@ fn perform(port: u16, kind: &Kind, valid: &[ValidInstance]) -> Outcome {
             http(port, "POST", "/solve", js, &g, Delivery::Plain, 60)
         }
         Kind::DisconnectMidBody(i) => http(port, "POST", "/solve", js, &valid[*i].body, Delivery::DisconnectMidBody, 60),
+        Kind::HangUpAfterRequest(i, ms) => http(port, "POST", "/solve", js, &valid[*i].body, Delivery::HangUpAfterRequest(*ms), 60),
         Kind::MissingField(i)
         | Kind::DanglingReference(i)
         | Kind::BadTimestamp(i)
@@ -911,7 +926,8 @@ pub fn case(ctx: &Ctx, idx: u64) -> CaseOut {
                 60..=62 => Kind::WrongContentType(v),
                 63..=65 => Kind::EmptyBody,
                 66 => Kind::Garbage5Mb,
-                67..=70 => Kind::DisconnectMidBody(v),
+                67..=68 => Kind::DisconnectMidBody(v),
+                69..=70 => Kind::HangUpAfterRequest(v, [0, 1, 3, 10, 40, 150][rng.usize(0, 5)]),
                 71..=75 => Kind::MissingField(v),
                 76..=78 => Kind::DanglingReference(v),
                 79..=80 => Kind::LocationNotInMatrixAtOrigin(v),
@@ -1039,7 +1055,7 @@ pub fn case(ctx: &Ctx, idx: u64) -> CaseOut {
                         8 => Kind::DanglingVehicleType(v),
                         9 => Kind::RaggedMatrix(v),
                         10 => Kind::NotJson,
-                        11 => Kind::DisconnectMidBody(v),
+                        11 => if seq % 2 == 0 { Kind::DisconnectMidBody(v) } else { Kind::HangUpAfterRequest(v, [0, 1, 2, 5, 20][r.usize(0, 4)]) },
                         12 => Kind::MissingField(v),
                         _ => Kind::Health,
                     };
